@@ -191,6 +191,14 @@ def programs(tier, rng):
                     if form == "tt": r = Node("bin", "+", [Node("fn1", "abs", [L("b")]), _one()])
                 add(t, Node("bin", op, [l, r]), "=", cls="atom")
         add(t, Node("un", "-", [L("a")]), "=", cls="atom"); add(t, Node("un", "+", [L("a")]), "=", cls="atom")
+        if integ:
+            # integer division by a scalar: powers of two (a shift rounds toward -inf, C++ division truncates), their negatives, and odd divisors
+            for dv in (2, 4, 8, 16, -2, -8, 3, 7, 10):
+                n_ = Node("lit", lit="T(%d)" % dv); n_.ival = dv
+                add(t, Node("bin", "/", [L("a"), n_]), "=", cls="atom")
+                if dv in (2, 8, -2, 7):
+                    m_ = Node("lit", lit="T(%d)" % dv); m_.ival = dv
+                    add(t, m_, "/=", cls="atom")
         if not cplx:
             add(t, Node("fn1", "abs", [L("a")]), "=", cls="atom")
             add(t, Node("fn2", "min", [L("a"), L("b")]), "=", cls="atom"); add(t, Node("fn2", "max", [L("a"), L("b")]), "=", cls="atom")
